@@ -364,6 +364,11 @@ def gen_track(rng: random.Random, profile: str, res: int, tm: TempoMap, horizon:
                     gap = nxt[0] + rng.choice([-1, 0, 0, 1]) * max(1, res // rng.choice([1, 2, 4])) - t
                     if gap < 1:
                         gap = 1
+        # charts are full of notes that start exactly where a held lane of the previous note is released (sustain == gap), also
+        # when that lane is not the longest one of its chord
+        held = sorted({v for v in g["lanes"].values() if v > 0} | ({g["open"]} if g.get("open") else set()))
+        if held and rng.random() < 0.2:
+            gap = rng.choice(held)
         t += gap
     # star power phrases, ordered by start
     note_ticks = [g["tick"] for g in groups] or [0]
